@@ -17,7 +17,8 @@ LEVEL_TEXT = ('Decides clauses C05-a/b: every field of Request (and of request H
               'ed equal to `close` (any other value keeps the session, so the requests that follow are answered), and nothing is spawned inside the loop (one read->s'
               "end chain per iteration, hence responses in request order). Within each clear() a field's reset runs under no condition other than that the field itse"
               "lf holds something (no early return on another field's state). After read() answered Err, neither the next iteration nor the loop exit is reached with"
-              'out Response::send (path form). Decides these clauses, not non-observability for all request histories.')
+              'out Response::send (path form). C05-d: the head parser is given the received prefix of the buffer only (C02-d re-evaluated): bytes of an earlier reque'
+              'st behind it are never parsed. Decides these clauses, not non-observability for all request histories.')
 
 # field -> reason it needs no reset
 EXEMPT = {
@@ -36,6 +37,7 @@ def run(ck, progs):
         ck.guard("C05-a EXHAUSTIVE reset", lambda: c05a(ck, prog))
         ck.guard("C05-b MUSTPASS session loop", lambda: c05b(ck, prog))
         ck.guard("C05-c GUARD stale buffer bytes", lambda: c05c(ck, prog))
+        ck.guard("C05-d GUARD parser sees received bytes only", lambda: c05d(ck, prog))
     ck.config = None
 
 
@@ -355,3 +357,21 @@ def c05c(ck, prog):
             n += 1
             ck.ob(R, o["key"], o["ok"], o["where"], o["detail"], how=o["how"], nontrivial=o.get("nontrivial", True))
     ck.floor(R, "buffer searches checked", n, 1)
+
+
+def c05d(ck, prog):
+    """Request::clear wipes the buffer only up to its first NUL, so bytes of an earlier request can lie behind the bytes
+    received for this one: the head parser (and with it the `remaining` bytes handed to read_payload) must be given the
+    received prefix only. The C02-d parser-input clause re-evaluated: handing the parser the whole buffer is what lets one
+    request observe another."""
+    R = "C05-d GUARD parser sees received bytes only"
+    from . import C02
+    sub = type(ck)(ck.prop, ck.tier)
+    sub.config = ck.config
+    sub.guard("C02-d USED-RESULT", lambda: C02.c02d(sub, prog))
+    n = 0
+    for o in sub.obs:
+        if o["key"] in ("parser-input:bounded-by-received", "anchor-lost"):
+            n += 1
+            ck.ob(R, "C02-d:" + o["key"], o["ok"], o["where"], o["detail"], how=o["how"], nontrivial=o.get("nontrivial", True))
+    ck.floor(R, "parser input clauses", n, 1)
